@@ -315,8 +315,12 @@ func (fc *FuncCtx) AP(v ssa.Value) string {
 // leaves the atoms unchanged.
 func (fc *FuncCtx) AliasSlots(names map[string]string) {
 	for ts, name := range names {
+		ts := ts
 		slot, ok := slotOf(fc.Fn, func(t types.Type) bool {
-			return types.TypeString(t, func(pk *types.Package) string { return pk.Name() }) == ts
+			if types.TypeString(t, func(pk *types.Package) string { return pk.Name() }) == ts {
+				return true
+			}
+			return ts == "saml.signatureRequirement" && isSigReqType(t) // by role: the type may have been renamed
 		})
 		if !ok || slot.isParam() {
 			continue
@@ -579,6 +583,10 @@ func (fc *FuncCtx) ap0(v ssa.Value) string {
 		}
 		if same && first != "" {
 			return first
+		}
+		// a := x; if a == "" { a = y }: the first non-empty of the two, the value of the module's firstSet helper
+		if s := fc.firstSetPhi(x); s != "" {
+			return s
 		}
 		return fc.uniq("phi", v)
 	case *ssa.Call:
@@ -1303,4 +1311,37 @@ func carrierStruct(t types.Type) bool {
 	}
 	_, isStruct := nm.Underlying().(*types.Struct)
 	return isStruct
+}
+
+// firstSetPhi: ph merges a string A, on the edge taken when A is not empty, with another string B on the edge taken when
+// A is empty: "firstSet(A,B)". Decided only when the conditions of both incoming edges are already known.
+func (fc *FuncCtx) firstSetPhi(ph *ssa.Phi) string {
+	if len(ph.Edges) != 2 || !isStringType(ph.Type()) || fc.cond == nil {
+		return ""
+	}
+	blk := ph.Block()
+	B := fc.A.B
+	var conds [2]*bddNode
+	for i := range ph.Edges {
+		pc, ok := fc.cond[blk.Preds[i]]
+		if !ok {
+			return ""
+		}
+		conds[i] = B.And(pc, fc.edgeCond(blk.Preds[i], blk))
+	}
+	for i := 0; i < 2; i++ {
+		if _, isPhi := ph.Edges[i].(*ssa.Phi); isPhi {
+			continue
+		}
+		apA, apB := fc.AP(ph.Edges[i]), fc.AP(ph.Edges[1-i])
+		nm := "empty(" + apA + ")"
+		if !B.HasVar(nm) {
+			continue
+		}
+		e := B.Var(nm)
+		if conds[i] != B.False && conds[1-i] != B.False && B.Implies(conds[i], B.Not(e)) && B.Implies(conds[1-i], e) {
+			return "firstSet(" + apA + "," + apB + ")"
+		}
+	}
+	return ""
 }
